@@ -74,7 +74,13 @@ def doOp (m : Metric) (w : World) (op : Json) : Except String (World × Json) :=
     let i ← (arg 1).getNat?
     return (w, optRows (step m w (.result i)).2)
   | "snap" =>
-    return (w, Json.arr ((List.range w.accs.length).map fun i => optRows (step m w (.result i)).2).toArray)
+    -- every accumulator's result, and which accumulators share a Counter object (equivalence classes of the
+    -- references, numbered in first-seen order)
+    let rows := Json.arr ((List.range w.accs.length).map fun i => optRows (step m w (.result i)).2).toArray
+    let refs := w.accs.map Acc.ctr
+    let firsts := refs.eraseDups
+    let ids := refs.map fun r => (firsts.idxOf r)
+    return (w, Json.mkObj [("rows", rows), ("ids", toJson ids)])
   | "call" | "fn" =>
     -- AggregateFn.__call__ (base.py:153): get_result(update_state(create_state(), texts)), on a private accumulator
     let ts ← parseTexts (arg 1)
